@@ -49,18 +49,21 @@ def run(eng, rep) -> None:
     rep.check(gate.has_decorator("catch"), "R10.1", file, fn, "@catch on generate",
               "attempt() failures become the returned Err", "generate is not wrapped by @catch: a rejected verdict escapes as an exception")
 
+    # the gated region starts at any call that runs plug-in code: gen itself, or anything that reaches a
+    # plug-in's generate (plug-ins' generate() may have side effects of their own)
+    plug_quals = gen_quals | {m.qual for m in prog.all_overrides(gen.cls, "generate")}
     gen_sites, verify_sites, reg_sites = [], [], []
     for cs in cg.sites_in(gate):
-        if set(cs.callees) & gen_quals:
+        if set(cs.callees) & plug_quals:
             gen_sites.append(cs)
-        elif wrapper_reaches(eng, cs, gen_quals, bound=3):
+        elif wrapper_reaches(eng, cs, plug_quals, bound=3):
             gen_sites.append(cs)
         if VERIFY in cs.callees or wrapper_reaches(eng, cs, {VERIFY}, bound=3 if eng.tier == "quick" else 6):
             verify_sites.append(cs)
         if set(cs.callees) & regc_quals:
             reg_sites.append(cs)
     if not gen_sites:
-        raise AnalysisError("anchor vanished: no call reaching CodeGenerator.gen in %s" % GATE)
+        raise AnalysisError("anchor vanished: no call reaching CodeGenerator.gen or a plug-in generate in %s" % GATE)
     rep.floor("R10.1", "gate functions", 1, 1)
     if not verify_sites:
         rep.violation("R10.1", file, fn, "call reaching Verifier.verify", "no call in generate reaches Verifier.verify: generation is not gated")
@@ -124,9 +127,20 @@ def run(eng, rep) -> None:
                       "the generate command does not hand make_general_verifier() to the GeneratorManager")
 
     # ---- R10.2 --------------------------------------------------------------
-    stop = set(gen_quals)
-    pred = cg.reachable([CLI], stop=stop)
-    pre_gate = [q for q in pred if q not in stop]
+    # pre-gate region: everything reachable from the command, where inside the gate function only the call
+    # sites NOT dominated by the consumed verdict are followed
+    post_sites = set()
+    for cs in cg.sites_in(gate):
+        sn = cfg.stmt_node_containing(cs.node)
+        if gate_nodes and sn is not None and sn not in gate_nodes and cfg.every_path_passes(sn, gate_nodes):
+            post_sites.add(id(cs.node))
+    pred = cg.reachable([CLI], stop={GATE})
+    if GATE in pred:
+        roots2 = sorted({c for cs in cg.sites_in(gate) if id(cs.node) not in post_sites for c in cs.callees} - set(pred))
+        for q, pq in cg.reachable(roots2, stop={GATE}).items():
+            if q not in pred:
+                pred[q] = pq if pq is not None else GATE
+    pre_gate = [q for q in pred]
     n_prim = 0
     for q in sorted(pre_gate):
         f = prog.functions[q]
@@ -149,10 +163,16 @@ def run(eng, rep) -> None:
                     w = fs_call_kind_simple(n)
                     if w:
                         rep.violation("R10.2", m.relpath, "<module>", norm(n), "filesystem-mutating primitive (%s) at plug-in import time (pre-gate)" % w)
+    def behind_gate(cs) -> bool:
+        """the call site can only execute after the consumed verdict"""
+        if cs.caller.qual == GATE:
+            return id(cs.node) in post_sites
+        return cs.caller.qual not in pred and cs.caller.qual in post
+
+    post = cg.reachable(sorted({c for cs in cg.sites_in(gate) if id(cs.node) in post_sites for c in cs.callees}))
     # post-gate inventory (informational) + positive fixture: the sanctioned writer must match
-    post = cg.reachable(sorted(gen_quals))
     writers = []
-    for q in sorted(post):
+    for q in sorted(cg.reachable(sorted(gen_quals))):
         f = prog.functions[q]
         for site, what in fs_mutations(eng, f):
             writers.append((f, site, what))
@@ -166,11 +186,11 @@ def run(eng, rep) -> None:
         if q not in prog.functions:
             continue
         for cs in cg.callers_of(q):
-            rep.check(cs.caller.qual in allowed, "R10.2", cs.caller.file, cs.caller.qual, norm(cs.node),
+            rep.check(cs.caller.qual in allowed or behind_gate(cs), "R10.2", cs.caller.file, cs.caller.qual, norm(cs.node),
                       "sanctioned caller of %s" % q.split(".")[-1], "%s is called from outside the gated path" % q.split(".")[-1])
     for gq in sorted(gen_quals):
         for cs in cg.callers_of(gq):
-            rep.check(cs.caller.qual == GATE, "R10.2", cs.caller.file, cs.caller.qual, norm(cs.node),
+            rep.check((cs.caller.qual == GATE and id(cs.node) in post_sites) or behind_gate(cs), "R10.2", cs.caller.file, cs.caller.qual, norm(cs.node),
                       "gen called from the gated site", "gen is called from a site that is not behind the verification gate")
     for m in prog.all_overrides(gen.cls, "gen"):
         if m.qual != GEN:
@@ -182,7 +202,7 @@ def run(eng, rep) -> None:
         for cs in cg.callers_of(g.qual):
             if cs.how == "by-name":
                 continue  # ambiguous receiver: not evidence of a call
-            rep.check(cs.caller.qual in gen_quals, "R10.2", cs.caller.file, cs.caller.qual, norm(cs.node),
+            rep.check(cs.caller.qual in gen_quals or behind_gate(cs), "R10.2", cs.caller.file, cs.caller.qual, norm(cs.node),
                       "generate called from gen", "a plug-in's generate is invoked outside gen (its records could be written ungated)")
 
     # ---- R10.3 --------------------------------------------------------------
